@@ -187,6 +187,14 @@ pub fn run(ctx: &mut Ctx) {
         let s: String = (0..len).map(|_| r.pick(&atoms).as_str()).collect();
         judge_input(ctx, &s, &sp, &cfg, "exotic-delimiters");
     }
+    // ---- wrapper-line child templates (exhaustive), three spellings incl. multi-byte delimiters
+    for sp in [short_sp(), Sp::new("«", "»", "t.l", "r+m"), default_sp()] {
+        let mut rank = shard;
+        while let Some(s) = wrapper_child_template(rank, &sp) {
+            judge_input(ctx, &s, &sp, &cfg, "wrapper-child-templates");
+            rank += n;
+        }
+    }
     // ---- a region beyond line 10 000 000 (eight-digit line numbers in the listings)
     if shard == 1 % n {
         let s = format!("{}<m name='feat-a'>\nx\n</m>\n", "\n".repeat(10_000_001));
